@@ -170,6 +170,32 @@ impl LinkFlowState<role::ReceiverMarker> {
         old(lock).link_credit >= count ==> forall|limit: u32| within_limit(*old(lock), limit) ==> within_limit(*final(lock), limit),   // [C08.consume.within-limit] the sender stays inside delivery-count_rcv + link-credit_rcv
 //@@ end
 
+// the non-blocking twin used by the transaction roll-back on drop (cfg_transaction!): SenderFlowState::try_consume
+pub enum SenderTryConsumeError { TryLockError, InsufficientCredit }
+/// `self.state().lock.try_write().ok_or(TryLockError)?` : the lock is free or not (ghost `free`); R4
+pub struct TryLockS { pub inner: LinkFlowStateInner, pub free: Ghost<bool> }
+#[verifier::external_body]
+pub fn try_write_s(l: &mut TryLockS) -> (r: Option<&mut LinkFlowStateInner>)
+    ensures final(l).free == old(l).free, (match r { Some(st) => old(l).free@ && *st == old(l).inner && final(l).inner == *final(st), None => !old(l).free@ && final(l).inner == old(l).inner }),
+{ unimplemented!() }
+pub struct SenderFlowStateT { pub l: TryLockS }
+impl SenderFlowStateT {
+//@@ fn file=fe2o3-amqp/src/link/state.rs impl=`impl crate::util::TryConsume for SenderFlowState` name=try_consume
+//@@ selfmut
+//@@ param item : u32
+//@@ ret Result<[u8; 4], SenderTryConsumeError>
+//@@ subst `self .state() .lock .try_write() .ok_or(super::error::SenderTryConsumeError::TryLockError)?` => `(match try_write_s(&mut self.l) { Some(st) => st, None => return Err(SenderTryConsumeError::TryLockError) })` rule=R4
+//@@ subst `super::error::SenderTryConsumeError::InsufficientCredit` => `SenderTryConsumeError::InsufficientCredit` rule=R11
+//@@ subst `state.delivery_count.to_be_bytes()` => `u32_to_be_bytes(state.delivery_count)` rule=R14
+//@@ spec
+    ensures
+        final(self).l.free == old(self).l.free,
+        (!old(self).l.free@ || old(self).l.inner.link_credit < item) ==> r is Err && final(self).l.inner == old(self).l.inner,   // [C08.consume.blocked] without the lock or without enough credit nothing is consumed
+        old(self).l.free@ && old(self).l.inner.link_credit >= item ==> r is Ok
+            && final(self).l.inner == (LinkFlowStateInner { delivery_count: add32(old(self).l.inner.delivery_count, item as int), link_credit: (old(self).l.inner.link_credit - item) as u32, ..old(self).l.inner })   // [C08.consume.account] the non-blocking consume (roll-back of a transaction on drop) accounts exactly as the blocking one: `item` credit taken, delivery-count advanced by it
+            && r->Ok_0@ == be_bytes(old(self).l.inner.delivery_count),                                                        // [C08.consume.tag]
+//@@ end
+}
 
 // ReceiverLink<T>: only the field get_link_flow touches (R11: other fields elided; touching one is a compile error => undecided)
 pub struct ReceiverLink { pub flow_state: LinkFlowState<role::ReceiverMarker>, pub output_handle: Option<OutputHandle>, pub session_stop_reason: OnceCell<SessionStopReason> }
